@@ -1650,3 +1650,286 @@ theorem sparseDemo_actions :
     sparseActions (.name [121]) none sparseDemo = some [[.str "x", .str "z"], [.str "x", .str "z"]] := by decide +kernel
 
 end Coba.C14
+
+/-! ## Phase 5: `SparseFileRoundTrip` discharged (C12's `arff_sparse_table_roundtrip`), whole-file ARFF with take, `headerIndex` spec -/
+
+namespace Coba.C14
+
+theorem headerIndex_some_iff' (h : List C12.Text) (nm : C12.Text) (i : Nat) :
+    headerIndex h nm = some i ↔ h[i]? = some nm ∧ ∀ j, i < j → h[j]? ≠ some nm := by
+  unfold headerIndex
+  constructor
+  · intro hh
+    split at hh
+    · cases hh
+    · rename_i j hj
+      injection hh with hh
+      rw [List.idxOf?, List.findIdx?_eq_some_iff_getElem] at hj
+      obtain ⟨hlt, hp, hmin⟩ := hj
+      simp only [List.length_reverse] at hlt
+      simp only [List.getElem_reverse, beq_iff_eq] at hp
+      subst hh
+      refine ⟨?_, ?_⟩
+      · rw [List.getElem?_eq_some_iff]; exact ⟨by omega, hp⟩
+      · intro k hk hk'
+        obtain ⟨hkl, hkv⟩ := List.getElem?_eq_some_iff.mp hk'
+        have := hmin (h.length - 1 - k) (by omega)
+        simp only [List.getElem_reverse, beq_iff_eq] at this
+        apply this
+        have e : h.length - 1 - (h.length - 1 - k) = k := by omega
+        simp only [e]; exact hkv
+  · rintro ⟨hi, hlast⟩
+    obtain ⟨hil, hiv⟩ := List.getElem?_eq_some_iff.mp hi
+    have hj : h.reverse.idxOf? nm = some (h.length - 1 - i) := by
+      rw [List.idxOf?, List.findIdx?_eq_some_iff_getElem]
+      refine ⟨by simp; omega, ?_, ?_⟩
+      · simp only [List.getElem_reverse, beq_iff_eq]
+        have e : h.length - 1 - (h.length - 1 - i) = i := by omega
+        simp only [e]; exact hiv
+      · intro j hji
+        simp only [List.getElem_reverse, beq_iff_eq]
+        intro hc
+        exact hlast (h.length - 1 - j) (by omega) (List.getElem?_eq_some_iff.mpr ⟨by omega, hc⟩)
+    rw [hj]
+    simp only [Option.some.injEq]
+    omega
+
+theorem headerIndex_none_iff' (h : List C12.Text) (nm : C12.Text) : headerIndex h nm = none ↔ nm ∉ h := by
+  unfold headerIndex
+  constructor
+  · intro hh
+    split at hh
+    · rename_i hj
+      rw [List.idxOf?, List.findIdx?_eq_none_iff] at hj
+      intro hm
+      have := hj nm (List.mem_reverse.mpr hm)
+      simp at this
+    · cases hh
+  · intro hm
+    have : h.reverse.idxOf? nm = none := by
+      rw [List.idxOf?, List.findIdx?_eq_none_iff]
+      intro x hx
+      simp only [beq_eq_false_iff_ne, ne_eq]
+      intro hxe; subst hxe; exact hm (List.mem_reverse.mp hx)
+    rw [this]
+
+/-- the rows C12's `arff_sparse_table_roundtrip` says the reader returns for a written sparse file -/
+def sparseWritten (attrs : List C12.AttrW) (rows : List (Nat × List (C12.Text × C12.CellW))) : List C12.SparseRow :=
+  rows.map fun r => ⟨C12.sparseRowOut (attrs.map (·.name.2)) (attrs.map (·.typ.enc false)) r.2, r.2.any (·.2.isMissing)⟩
+
+def denseWritten (attrs : List C12.AttrW) (rows : List (Nat × List (Bool × C12.CellW))) : List C12.DenseRow :=
+  rows.map fun r => ⟨C12.rowOut (attrs.map (·.typ.enc true)) r.2, r.2.any (·.2.isMissing)⟩
+
+theorem sparse_file_roundtrip' (q : Nat) (hq : q = C12.SQ ∨ q = C12.DQ) (also : Nat → Bool) (attrs : List C12.AttrW) (dkw : C12.Text)
+    (rows : List (Nat × List (C12.Text × C12.CellW)))
+    (hattrs : attrs ≠ []) (hok : ∀ a ∈ attrs, a.ok false = true) (hnd : (attrs.map (·.name.2)).Nodup)
+    (hdkw : C12.lowerAscii dkw = C12.kwData) (hne : rows ≠ [])
+    (hrows : ∀ r ∈ rows, C12.sparseRowWOk attrs.length (attrs.map (·.typ.enc false)) r.2 = true)
+    (lines : List C12.Text)
+    (hnorm : C12.arffNormalize lines = attrs.map (·.line q also) ++ dkw :: rows.map (fun r => C12.sparseRowLine r.1 r.2)) :
+    SparseFileRoundTrip lines (attrs.map (·.name.2)) (sparseWritten attrs rows) := by
+  unfold SparseFileRoundTrip C12.arffRead sparseWritten
+  rw [hnorm, C12.arff_sparse_table_roundtrip q hq also attrs dkw rows hattrs hok hnd hdkw hne hrows]
+
+/-- what follows the reader on a sparse result, with or without take -/
+theorem sparse_tail' (lines names) (srows : List C12.SparseRow) (hrt : SparseFileRoundTrip lines names srows)
+    (lc : LabelCol) (given : Option LType) (res : Option (Nat × List C09.Step))
+    (ints : List (Interaction (List (Val × Label))))
+    (h : arffFileSim lc given res lines = .sparse (.ok ints)) :
+    ∃ sample table, sampleOpt res srows = .ok sample ∧ sparseTable (sample.map (·.items)) = .ok table ∧
+      MeetsStatement given (table.map (splitSparse (sparseKey names lc) (Label.atom (.num 0)))) ints ∧
+      simPairs given none (table.map (splitSparse (sparseKey names lc) (Label.atom (.num 0)))) = .ok ints := by
+  unfold arffFileSim at h
+  rw [hrt] at h
+  simp only [ArffOut.sparse.injEq] at h
+  split at h
+  · cases h
+  · rename_i s hs
+    split at h
+    · cases h
+    · rename_i table ht
+      have hr : read given (table.map (splitSparse (sparseKey names lc) (Label.atom (.num 0)))) = .ok ints := by
+        simpa [simSparse, applyTake] using h
+      exact ⟨s, table, hs, ht, read_meets_statement' given _ ints hr, by simpa [simPairs, applyTake] using hr⟩
+
+theorem end_to_end_arff_file_sparse' (q : Nat) (hq : q = C12.SQ ∨ q = C12.DQ) (also : Nat → Bool) (attrs : List C12.AttrW) (dkw : C12.Text)
+    (rows : List (Nat × List (C12.Text × C12.CellW)))
+    (hattrs : attrs ≠ []) (hok : ∀ a ∈ attrs, a.ok false = true) (hnd : (attrs.map (·.name.2)).Nodup)
+    (hdkw : C12.lowerAscii dkw = C12.kwData) (hne : rows ≠ [])
+    (hrows : ∀ r ∈ rows, C12.sparseRowWOk attrs.length (attrs.map (·.typ.enc false)) r.2 = true)
+    (lines : List C12.Text)
+    (hnorm : C12.arffNormalize lines = attrs.map (·.line q also) ++ dkw :: rows.map (fun r => C12.sparseRowLine r.1 r.2))
+    (lc : LabelCol) (given : Option LType) (ints : List (Interaction (List (Val × Label))))
+    (h : arffFileSim lc given none lines = .sparse (.ok ints)) :
+    ∃ table, sparseTable (rows.map fun r => C12.sparseRowOut (attrs.map (·.name.2)) (attrs.map (·.typ.enc false)) r.2) = .ok table ∧
+      MeetsStatement given (table.map (splitSparse (sparseKey (attrs.map (·.name.2)) lc) (Label.atom (.num 0)))) ints ∧
+      simPairs given none (table.map (splitSparse (sparseKey (attrs.map (·.name.2)) lc) (Label.atom (.num 0)))) = .ok ints := by
+  obtain ⟨s, table, hs, ht, hm, hx⟩ := sparse_tail' lines _ _
+    (sparse_file_roundtrip' q hq also attrs dkw rows hattrs hok hnd hdkw hne hrows lines hnorm) lc given none ints h
+  simp only [sampleOpt, Except.ok.injEq] at hs
+  subst hs
+  refine ⟨table, ?_, hm, hx⟩
+  simpa [sparseWritten, Function.comp_def] using ht
+
+theorem end_to_end_arff_file_sparse_take' (q : Nat) (hq : q = C12.SQ ∨ q = C12.DQ) (also : Nat → Bool) (attrs : List C12.AttrW) (dkw : C12.Text)
+    (rows : List (Nat × List (C12.Text × C12.CellW)))
+    (hattrs : attrs ≠ []) (hok : ∀ a ∈ attrs, a.ok false = true) (hnd : (attrs.map (·.name.2)).Nodup)
+    (hdkw : C12.lowerAscii dkw = C12.kwData) (hne : rows ≠ [])
+    (hrows : ∀ r ∈ rows, C12.sparseRowWOk attrs.length (attrs.map (·.typ.enc false)) r.2 = true)
+    (lines : List C12.Text)
+    (hnorm : C12.arffNormalize lines = attrs.map (·.line q also) ++ dkw :: rows.map (fun r => C12.sparseRowLine r.1 r.2))
+    (lc : LabelCol) (given : Option LType) (k : Nat) (steps : List C09.Step) (ints : List (Interaction (List (Val × Label))))
+    (h : arffFileSim lc given (some (k, steps)) lines = .sparse (.ok ints)) :
+    ∃ sample, C09.reservoir (some k) false (C05.normInt 1) steps (sparseWritten attrs rows) = .ok sample ∧
+      sample.Subperm (sparseWritten attrs rows) ∧ sample.length = min k rows.length ∧
+      ∃ table, sparseTable (sample.map (·.items)) = .ok table ∧
+        MeetsStatement given (table.map (splitSparse (sparseKey (attrs.map (·.name.2)) lc) (Label.atom (.num 0)))) ints ∧
+        simPairs given none (table.map (splitSparse (sparseKey (attrs.map (·.name.2)) lc) (Label.atom (.num 0)))) = .ok ints := by
+  obtain ⟨s, table, hs, ht, hm, hx⟩ := sparse_tail' lines _ _
+    (sparse_file_roundtrip' q hq also attrs dkw rows hattrs hok hnd hdkw hne hrows lines hnorm) lc given (some (k, steps)) ints h
+  obtain ⟨a, b, c⟩ := sampleOpt_spec' k steps _ s hs
+  exact ⟨s, a, b, by simpa [sparseWritten] using c, table, ht, hm, hx⟩
+
+theorem end_to_end_arff_file_dense_take' (q : Nat) (hq : q = C12.SQ ∨ q = C12.DQ) (also : Nat → Bool) (attrs : List C12.AttrW) (dkw : C12.Text)
+    (rows : List (Nat × List (Bool × C12.CellW)))
+    (hattrs : attrs ≠ []) (hok : ∀ a ∈ attrs, a.ok true = true) (hnd : (attrs.map (·.name.2)).Nodup)
+    (hdkw : C12.lowerAscii dkw = C12.kwData) (hne : rows ≠ [])
+    (hrows : ∀ r ∈ rows, C12.denseRowWOk q also r.1 (attrs.map (·.typ.enc true)) r.2 = true)
+    (hfirst : ∀ r, rows.head? = some r → C12.notBraced (C12.denseRowLine q also r.1 r.2) = true)
+    (lines : List C12.Text)
+    (hnorm : C12.arffNormalize lines = attrs.map (·.line q also) ++ dkw :: rows.map (fun r => C12.denseRowLine q also r.1 r.2))
+    (lc : LabelCol) (given : Option LType) (k : Nat) (steps : List C09.Step) (ints : List (Interaction (List Label)))
+    (h : arffFileSim lc given (some (k, steps)) lines = .dense (.ok ints)) :
+    ∃ sample, C09.reservoir (some k) false (C05.normInt 1) steps (denseWritten attrs rows) = .ok sample ∧
+      sample.Subperm (denseWritten attrs rows) ∧ sample.length = min k rows.length ∧
+      ∃ table, rowsLabels (sample.map (·.cells)) = .ok table ∧
+        denseByCol (some (attrs.map (·.name.2))) lc given table = .ok ints := by
+  unfold arffFileSim C12.arffRead at h
+  rw [hnorm, C12.arff_dense_table_roundtrip q hq also attrs dkw rows hattrs hok hnd hdkw hne hrows hfirst] at h
+  simp only [ArffOut.dense.injEq] at h
+  split at h
+  · cases h
+  · rename_i s hs
+    split at h
+    · cases h
+    · rename_i table ht
+      obtain ⟨a, b, c⟩ := sampleOpt_spec' k steps _ s hs
+      exact ⟨s, a, b, by simpa [denseWritten] using c, table, ht, h⟩
+
+def a2t (s : String) : C12.Text := s.toList.map Char.toNat
+
+/-- the sparse demo file as the writer's data: `@attribute a numeric` / `@attribute y {x,z}` / `@data` / `{0 2,1 z}` / `{1 x}` -/
+def demoAttrs : List C12.AttrW :=
+  [⟨a2t "@attribute", 32, (false, a2t "a"), [32], .numeric (a2t "numeric")⟩,
+   ⟨a2t "@attribute", 32, (false, a2t "y"), [32], .nominal 0 [(false, a2t "x"), (false, a2t "z")]⟩]
+
+def demoRows : List (Nat × List (C12.Text × C12.CellW)) :=
+  [(0, [(a2t "0", .num (a2t "2")), (a2t "1", .cat (a2t "z"))]), (0, [(a2t "1", .cat (a2t "x"))])]
+
+theorem demo_written :
+    demoAttrs.map (·.line C12.SQ (fun _ => false)) ++ a2t "@data" :: demoRows.map (fun r => C12.sparseRowLine r.1 r.2) = sparseDemo := by
+  decide +kernel
+
+theorem demo_hyps :
+    demoAttrs ≠ [] ∧ (∀ a ∈ demoAttrs, a.ok false = true) ∧ (demoAttrs.map (·.name.2)).Nodup ∧
+    C12.lowerAscii (a2t "@data") = C12.kwData ∧ demoRows ≠ [] ∧
+    (∀ r ∈ demoRows, C12.sparseRowWOk demoAttrs.length (demoAttrs.map (·.typ.enc false)) r.2 = true) ∧
+    C12.arffNormalize sparseDemo = sparseDemo := by
+  decide +kernel
+
+end Coba.C14
+
+/-! ### Phase 5: `read`'s dispatch as data (tied to the source by Generated/C14Supervised.lean, see Props) -/
+
+namespace Coba.C14
+
+theorem label_type_resolution' (g tipe : Option LType) (first : Label) :
+    inferType (resolveGiven g tipe) first =
+      match g, tipe with
+      | some t, _ => t
+      | none, some t => t
+      | none, none => match first with | .atom (.num _) => .r | _ => .c := by
+  cases g <;> cases tipe <;> simp only [resolveGiven, inferType]
+  rcases first with (_ | _) | _ | _ <;> rfl
+
+theorem read_reward_class' {χ : Type} (given : Option LType) (rows : List (χ × Label)) (ints : List (Interaction χ)) (t : LType)
+    (h : read given rows = .ok ints) (ht : typeOf given rows = some t) :
+    ∀ x ∈ ints, x.reward.className = rewardClassOf t := by
+  cases rows with
+  | nil => simp [read] at h; subst h; simp
+  | cons r rest =>
+    obtain ⟨x0, first⟩ := r
+    simp only [typeOf, Option.some.injEq] at ht
+    unfold read at h
+    simp only [ht] at h
+    cases t with
+    | r =>
+      simp only [Except.ok.injEq] at h
+      subst h
+      intro x hx
+      simp only [List.mem_map] at hx
+      obtain ⟨_, _, rfl⟩ := hx
+      rfl
+    | c =>
+      simp only at h
+      split at h
+      · split at h
+        · cases h
+        · simp only [Except.ok.injEq] at h
+          subst h
+          intro x hx
+          simp only [List.mem_map] at hx
+          obtain ⟨_, _, rfl⟩ := hx
+          rfl
+      · split at h
+        · cases h
+        · split at h
+          · cases h
+          · simp only [Except.ok.injEq] at h
+            subst h
+            intro x hx
+            simp only [List.mem_map] at hx
+            obtain ⟨_, _, rfl⟩ := hx
+            rfl
+    | m =>
+      simp only at h
+      split at h
+      · cases h
+      · split at h
+        · cases h
+        · simp only [Except.ok.injEq] at h
+          subst h
+          intro x hx
+          simp only [List.mem_map] at hx
+          obtain ⟨_, _, rfl⟩ := hx
+          rfl
+
+theorem dispatch_row_mem' (lit : String) (t : LType) (cat : Bool) (h : parseLType lit = some t) :
+    (lit, cat, rewardCtorOf t cat, actionsKindOf t cat) ∈ dispatchTable := by
+  unfold parseLType at h
+  split at h <;> cases h <;> cases cat <;> decide
+
+theorem rewardCtor_class' (t : LType) (cat : Bool) :
+    rewardCtorOf t cat = rewardClassOf t ∨ rewardCtorOf t cat = rewardClassOf t ++ "(delist)" := by
+  cases t <;> cases cat <;> decide
+
+end Coba.C14
+
+namespace Coba.C14
+
+theorem sparse_file_roundtrip_relation' (q : Nat) (hq : q = C12.SQ ∨ q = C12.DQ) (also : Nat → Bool) (attrs : List C12.AttrW) (dkw : C12.Text)
+    (rows : List (Nat × List (C12.Text × C12.CellW)))
+    (hattrs : attrs ≠ []) (hok : ∀ a ∈ attrs, a.ok false = true) (hnd : (attrs.map (·.name.2)).Nodup)
+    (hdkw : C12.lowerAscii dkw = C12.kwData) (hne : rows ≠ [])
+    (hrows : ∀ r ∈ rows, C12.sparseRowWOk attrs.length (attrs.map (·.typ.enc false)) r.2 = true)
+    (rel : C12.Text) (hr1 : C12.lowerAscii rel ≠ C12.kwData) (hr2 : C12.lowerAscii (rel.take 5) ≠ C12.kwAttr)
+    (lines : List C12.Text)
+    (hnorm : C12.arffNormalize lines = rel :: (attrs.map (·.line q also) ++ dkw :: rows.map (fun r => C12.sparseRowLine r.1 r.2))) :
+    SparseFileRoundTrip lines (attrs.map (·.name.2)) (sparseWritten attrs rows) := by
+  unfold SparseFileRoundTrip C12.arffRead sparseWritten
+  rw [hnorm]
+  have := C12.arff_header_comment_invariance [] (attrs.map (·.line q also) ++ dkw :: rows.map (fun r => C12.sparseRowLine r.1 r.2)) rel hr1 hr2 (by simp)
+  simp only [List.nil_append] at this
+  rw [this, C12.arff_sparse_table_roundtrip q hq also attrs dkw rows hattrs hok hnd hdkw hne hrows]
+
+end Coba.C14
